@@ -41,6 +41,9 @@ class MatchingLabelPolicy(Enum):
     ALLOW_UNKNOWN = "ALLOW_UNKNOWN"
     ALLOW_ANY = "ALLOW_ANY"
 
+    def __str__(self) -> str:
+        return self.value
+
     @classmethod
     def from_str(cls, name: str) -> MatchingLabelPolicy:
         """Construct an enum member from str name.
